@@ -50,7 +50,8 @@ RULE = ('SimpleClient on the real Client on the harness engine, its two '
 ASSUMPTIONS = [
     'one consumer (the class is documented for a single application thread)',
     'call() time-outs are not judged',
-    'an event caught between its append and its signal has not arrived yet',
+    'an event has arrived once it is in the buffer (also before the handler '
+    'has signalled it)',
 ]
 BUDGET = {'quick': 800, 'thorough': 40000}
 FLOOR = {'quick': 100, 'thorough': 3000}
@@ -219,6 +220,7 @@ def _execute_sync(case):
         def append(self, x):
             coop.CoopList.append(self, x)
             arrivals.append(x)
+            st_['arrived'] = len(arrivals)   # in the buffer = arrived
     buf = Buf()
     buf.sched = sched
     sc.input_buffer = buf
@@ -675,14 +677,10 @@ def _check_async(case):
             live = [tk for n, tk in h.tasks
                     if n == '_handle_reconnect' and not tk.done()]
             if pending and pending[0][1] is not None or \
-                    live and final[0] and sc.connected or \
-                    live and pending and labels.get(
-                        'event_and_loss_in_one_read'):
+                    live and final[0] and sc.connected:
                 # (a reconnection effort that the end of the connection has
                 # overtaken, and that has not told the application yet, is
-                # given the time to notice; a receive() without time-out
-                # that an event dispatched after the loss found parked for
-                # the reconnection returns when the reconnection resolves)
+                # given the time to notice)
                 if live and h.plan[:1] == ['fail']:
                     final[0] = True     # the pending attempt will fail
                 loop.advance()
